@@ -1,0 +1,68 @@
+//go:build verif
+
+// Contracts for the deductive verifier in /verif (comment-only file; see /verif/DESIGN.md).
+//
+// Generic types: a contract on the origin (…[C]) applies to every instantiation that is verified.
+
+package clientgroups
+
+// ---------------- round-robin and random selection
+
+// Each call takes the next ticket (atomic increment) and returns the client at ticket mod n: consecutive
+// tickets, hence cyclic configuration order with none skipped, for fewer than 2^63 selections.
+//@ func (*roundRobinClientSelector[C]).Select
+//@   requires len(s.clients) >= 1
+//@   ensures atomicval(s.index) == old(atomicval(s.index)) + 1
+//@   ensures result == s.clients[int(atomicval(s.index) & (^uintptr(0) >> 1)) % len(s.clients)]
+
+//@ func (*roundRobinClientSelector[C]).init
+//@   ensures atomicval(s.index) == ^uintptr(0) && samearray(s.clients, clients) && sliceoff(s.clients) == sliceoff(clients) && len(s.clients) == len(clients)
+
+//@ func (*randomClientSelector[C]).Select
+//@   requires len(s.clients) >= 1
+//@   ensures exists k int :: 0 <= k && k < len(s.clients) && result == s.clients[k]
+
+// ---------------- probe jobs: one bit / one slot of retained history per round
+
+// ---------------- selection after a probe round: the first client, in configuration order, with the best score
+
+//@ func (*atomicClientSelector[C]).probeAvailability
+//@   loop 1 invariant len(pc.clients) == len(probeResult) && (len(pc.clients) == 0 ==> clientIndex == 0)
+//@   loop 2 invariant len(pc.clients) == len(probeResult)
+//@   loop 3 invariant len(pc.clients) == len(probeResult)
+//@   loop 3 invariant 0 <= bestIndex && bestSuccessCount >= 0 && (rangeindex < 0 ==> bestIndex == 0 && bestSuccessCount == 0)
+//@   loop 3 invariant bestSuccessCount == 0 ==> bestIndex == 0
+//@   loop 3 invariant bestSuccessCount > 0 ==> bestIndex <= rangeindex && bits.OnesCount(probeResult[bestIndex]) == bestSuccessCount
+//@   loop 3 invariant forall j int :: 0 <= j && j <= rangeindex ==> bits.OnesCount(probeResult[j]) <= bestSuccessCount
+//@   loop 3 invariant forall j int :: 0 <= j && j < bestIndex ==> bits.OnesCount(probeResult[j]) < bestSuccessCount
+//@   loop 3 exit len(probeResult) > 0 ==> 0 <= bestIndex && bestIndex < len(probeResult)
+//@   loop 3 exit len(probeResult) == 0 ==> bestIndex == 0
+//@   loop 3 exit forall j int :: 0 <= j && j < len(probeResult) ==> bits.OnesCount(probeResult[j]) <= bits.OnesCount(probeResult[bestIndex])
+//@   loop 3 exit forall j int :: 0 <= j && j < bestIndex ==> bits.OnesCount(probeResult[j]) < bits.OnesCount(probeResult[bestIndex])
+//@   callsite Store: clientIndex == bestIndex && 0 <= clientIndex && clientIndex < len(pc.clients)
+
+// A failed probe is recorded as the timeout; a successful one as the measured latency. Only the slot of this round changes.
+//@ func (*latencyProbeJob[C]).Run
+//@   ensures !isnil(err) ==> (*j.result)[j.count % 32] == j.timeout
+//@   ensures forall k uint :: k < 32 && k != j.count % 32 ==> (*j.result)[k] == old((*j.result)[k])
+
+//@ func (*availabilityProbeJob[C]).Run
+//@   ensures isnil(err) ==> (*j.result) == old(*j.result) | (uint(1) << (j.count % 64))
+//@   ensures !isnil(err) ==> (*j.result) == old(*j.result) &^ (uint(1) << (j.count % 64))
+
+// Latency policies: the stored pointer is an element of the client list (the optimality of the choice over the
+// 32-slot averages/maxima needs the inner summation loop unrolled and is not proved).
+//@ func (*atomicClientSelector[C]).probeLatency
+//@   loop 1 invariant len(pc.clients) == len(probeResult) && (len(pc.clients) == 0 ==> clientIndex == 0)
+//@   loop 2 invariant len(pc.clients) == len(probeResult)
+//@   loop 3 invariant len(pc.clients) == len(probeResult) && 0 <= bestIndex && (rangeindex < 0 ==> bestIndex == 0) && (bestIndex > 0 ==> bestIndex <= rangeindex) && rangeindex < len(probeResult)
+//@   loop 4 invariant len(pc.clients) == len(probeResult)
+//@   loop 3 exit (len(probeResult) > 0 ==> 0 <= bestIndex && bestIndex < len(probeResult)) && (len(probeResult) == 0 ==> bestIndex == 0)
+//@   callsite Store: clientIndex == bestIndex && 0 <= clientIndex && clientIndex < len(pc.clients)
+
+//@ func (*atomicClientSelector[C]).probeMinMaxLatency
+//@   loop 1 invariant len(pc.clients) == len(probeResult) && (len(pc.clients) == 0 ==> clientIndex == 0)
+//@   loop 2 invariant len(pc.clients) == len(probeResult)
+//@   loop 3 invariant len(pc.clients) == len(probeResult) && 0 <= bestIndex && (rangeindex < 0 ==> bestIndex == 0) && (bestIndex > 0 ==> bestIndex <= rangeindex) && rangeindex < len(probeResult)
+//@   loop 3 exit (len(probeResult) > 0 ==> 0 <= bestIndex && bestIndex < len(probeResult)) && (len(probeResult) == 0 ==> bestIndex == 0)
+//@   callsite Store: clientIndex == bestIndex && 0 <= clientIndex && clientIndex < len(pc.clients)
